@@ -115,6 +115,11 @@ type Node struct {
 	// ResultCache: operation id -> result operation as produced by the machine the first time
 	// (an operator re-submitting after a crash re-sends the same file).
 	ResultCache map[string][]byte
+
+	// UseAPI: the operator talks to this node through the repository's REST API (see HTTPOp); API is
+	// rebuilt whenever the services are rewired (restart).
+	UseAPI bool
+	API    *HTTPOp
 }
 
 // NodeOpts configures wiring of one hot node.
@@ -126,6 +131,7 @@ type NodeOpts struct {
 	ViaProvider bool
 	CommSeed    uint64
 	Mnemonic    string
+	ViaHTTP     bool
 }
 
 // WireHot (re)builds the hot node services on top of st/board, exactly in the order
@@ -166,6 +172,16 @@ func (n *Node) wireServices() error {
 		return fmt.Errorf("NewNode: %w", err)
 	}
 	n.Svc = svc
+	if n.UseAPI {
+		calls := map[string]int{}
+		if n.API != nil {
+			calls = n.API.Calls
+		}
+		if n.API, err = NewHTTPOp(n); err != nil {
+			return fmt.Errorf("REST API: %w", err)
+		}
+		n.API.Calls = calls
+	}
 	return nil
 }
 
@@ -209,7 +225,7 @@ func NewNode(idx int, name string, seed uint64, board Board, opt NodeOpts) (*Nod
 		return nil, err
 	}
 	n := &Node{Idx: idx, Name: name, KeyPair: &keystore.KeyPair{Pub: pub, Priv: priv}, Keys: &MemKeyStore{},
-		ResultCache: map[string][]byte{}}
+		ResultCache: map[string][]byte{}, UseAPI: opt.ViaHTTP}
 	_ = n.Keys.PutKeys(name, n.KeyPair)
 	n.Mnemonic = MnemonicFor(sched.Derive(seed, 0xC01D, uint64(idx)))
 	if opt.Mnemonic != "" {
